@@ -44,7 +44,14 @@ pub fn run(rep: &mut Report) {
                 let budget: f64 = rep.tier.pick(1.5e8, 1.2e10);
                 let tt = ((budget / cost) as u64).clamp(400, t1);
                 let kindt = if degenerate { Kind::Exact } else { Kind::TwoSided };
-                let targets = vec![Target::new("float_view", j, kindt), Target::new("u64_view", j, kindt), Target::new("u32_view", j, kindt)];
+                // disjoint sets: the u64 view holds item hashes (exactly 0 collisions); two different items can legitimately draw the
+                // same float r in a bin, and the 32-bit rehash of two different hashes can collide (2^-32): small allowances there
+                let f32kind = matches!(kind, UKind::OptF32 | UKind::RevF32);
+                let targets = if j == 0. {
+                    vec![Target::new("float_view", if f32kind { 1e-4 } else { 1e-9 }, Kind::Upper), Target::new("u64_view", 0., Kind::Exact), Target::new("u32_view", 1e-6, Kind::Upper)]
+                } else {
+                    vec![Target::new("float_view", j, kindt), Target::new("u64_view", j, kindt), Target::new("u32_view", j, kindt)]
+                };
                 let seed = subseed(rep.seed, "C08", &[ci]);
                 let (rs, trials) = staged(seed, tt, 3, &targets, |rng, out| {
                     let ids = fresh_ids(rng, u, 0);
